@@ -408,5 +408,7 @@ func init() {
 				return stL.next(rng, i)
 			}, Check: c04FactsCheck, Batch: 2000,
 		})
+		// leg V (c04sets.go): the proved validator for the set-valued facts
+		c04RegisterSets(c)
 	})
 }
